@@ -148,12 +148,15 @@ def extractSels (c : PCtx) (ip : List String) (parentType : String) (input : Lis
   let (ss, steps) ← extractLoop c ip parentType location input ([], [])
   .ok (finishExtract c parentType ss, steps)
 
+/-- one iteration of `filterSelectionSetByLoc` (`none` = GetURL failed for some field) -/
+def filterStep (c : PCtx) (loc parentType : String) (acc : Option (List Sel)) (f : Sel) : Option (List Sel) :=
+  match acc, getURL c parentType (fieldName f) internalService with
+  | some l, .ok u => if u == loc then some (l ++ [f]) else some l
+  | _, _ => none
+
 /-- `filterSelectionSetByLoc`: root fields owned by `loc` (`none` = GetURL failed) -/
 def filterByLoc (c : PCtx) (fields : List Sel) (loc parentType : String) : Option (List Sel) :=
-  fields.foldl (fun acc f =>
-    match acc, getURL c parentType (fieldName f) internalService with
-    | some l, .ok u => if u == loc then some (l ++ [f]) else some l
-    | _, _ => none) (some [])
+  fields.foldl (filterStep c loc parentType) (some [])
 
 def appendAt (m : List (String × List Sel)) (k : String) (v : List Sel) : List (String × List Sel) :=
   match m.find? (·.1 == k) with
@@ -193,13 +196,16 @@ def groupNodeFields (c : PCtx) (nodeFields : List Sel) : G (List (String × List
         | _ => .ok res) res
     | _ => .ok res) []
 
-/-- root branch of `routeSelectionSet` + `createQueryPlanSteps` at the root -/
-def planRoot (c : PCtx) (sanitised : List Sel) : G (List Step) := do
-  let parentType := c.opKind.rootName
-  let fields := Sel.toFields sanitised
-  let nodeFields := fields.filter (fun f => fieldName f == "node")
-  let others := fields.filter (fun f => fieldName f != "node")
-  let perURL ← (if others.isEmpty then (.ok [] : G (List (String × List Sel))) else do
+/-- root fields owned by `loc`, decided by `GetURL(parentType, name, internal)` -/
+def ownerIs (c : PCtx) (parentType loc : String) (f : Sel) : Bool :=
+  match getURL c parentType (fieldName f) internalService with
+  | .ok u => u == loc
+  | .error _ => false
+
+/-- the non-`node` part of the root branch of `routeSelectionSet`: per service (in `GetURLs()`
+    order) the root fields it owns, then the internal pseudo-service for builtin names -/
+def routeRoot (c : PCtx) (others : List Sel) (parentType : String) : G (List (String × List Sel)) :=
+  if others.isEmpty then .ok [] else do
     let base ← c.tum.urls.foldlM (fun (acc : List (String × List Sel)) loc =>
       match filterByLoc c others loc parentType with
       | none => (.error (.err "could not find location (root)") : G _)
@@ -207,7 +213,15 @@ def planRoot (c : PCtx) (sanitised : List Sel) : G (List Step) := do
       | some ss => .ok (acc ++ [(loc, ss)])) []
     match filterByLoc c others internalService parentType with
     | some (x :: xs) => .ok (base ++ [(internalService, x :: xs)])
-    | _ => .ok base)
+    | _ => .ok base
+
+/-- root branch of `routeSelectionSet` + `createQueryPlanSteps` at the root -/
+def planRoot (c : PCtx) (sanitised : List Sel) : G (List Step) := do
+  let parentType := c.opKind.rootName
+  let fields := Sel.toFields sanitised
+  let nodeFields := fields.filter (fun f => fieldName f == "node")
+  let others := fields.filter (fun f => fieldName f != "node")
+  let perURL ← routeRoot c others parentType
   let grouped ← groupNodeFields c nodeFields
   let routed := grouped.foldl (fun acc (k, v) => appendAt acc k v) perURL
   routed.foldlM (fun steps (loc, ss) => do
